@@ -9,12 +9,12 @@ EXTRA = {
                                 "C01_signature_shape C01_signature_length C01_bad_signature_refused C01_canonical_request_injective "
                                 "C01_string_to_sign_injective C01_equal_sts_equal_components C01_signed_list_injective")
            + T("KeyProofs", "ct_eq_spec lower_hex_inj lower_hex_length lower_hex_alphabet"),
-    "C07": T("StaticProofs", "C07_source_uses_ct C07_ct_eq_steps_data_independent C07_validate_steps_independent_of_signature C07_early_exit_refuted")
+    "C07": T("StaticC07", "C07_source_uses_ct C07_ct_eq_steps_data_independent C07_validate_steps_independent_of_signature C07_early_exit_refuted")
            + T("KeyProofs", "ct_eq_spec"),
     "C08": T("PipelineProofs", "normalize_elem_unescape query_map_good qmap_extend_good normalize_headers_good from_request_parts_good "
                                "C08_from_request_parts_never_panics C08_carrier_params_never_panics C08_get_authenticator_never_panics "
                                "C08_validate_signature_never_panics C08_validate_never_panics C08_validate_total")
-           + T("KeyProofs", "C06_never_panics C06_capacity C06_too_long") + T("StaticProofs", "C08_site_inventory"),
+           + T("KeyProofs", "C06_never_panics C06_capacity C06_too_long"),
     "C12": T("SoundnessProofs", "C12_fold C12_values_order C12_no_fold C12_bad_encoding spec_decoded_body_none C12_bad_encoding_only C12_body_covered "
                                 "decoded_pairs_spec_query")
            + T("QueryProofs", "qmap_extend_flatten_perm"),
@@ -26,7 +26,7 @@ EXTRA = {
     "C15": T("SoundnessProofs", "C15_unfolded C15_folded C15_identity C12_values_order decoded_pairs_spec_query"),
     "C17": T("SelectionProofs", "C17_calls_independent_of_key C17_refusal_independent_of_key "
                                 "C17_refusal_independent_of_presented_signature_match C17_key_enters_only_the_comparison")
-           + T("StaticProofs", "C17_log_sites C17_error_sites C17_renderings_constant C17_expected_signature_only_at_trace"),
+           + T("StaticC17", "C17_log_sites C17_error_sites C17_renderings_constant C17_expected_signature_only_at_trace"),
     "C18": T("SelectionProofs", "normalize_headers_nodup query_map_nodup qmap_extend_nodup reqs_ok_perm header_lines_perm C18_order_independent "
                                 "C18_authenticator_order_independent C18_validate_order_independent from_request_parts_nodup "
                                 "C18_folded_uri_order_independent C18_history_independent C18_fold_order_independent")
